@@ -5,6 +5,7 @@ import common
 
 PROPS = "RotoV.Props.C20"
 PROPS_MEM = "RotoV.Props.C20Mem"
+PROPS_REGS = "RotoV.Props.C20Regs"
 
 
 def search(ctx):
@@ -12,15 +13,30 @@ def search(ctx):
         ctx.harness("c20", ["run", ctx.seed + 7919, "thorough"], timeout=3000, name="search:c20")
 
 
+def _prove(ctx, acc, module, **kw):
+    """ctx.prove keeps the theorem list of the last module only: accumulate over the three modules"""
+    for k in ("theorems", "nonvacuity_examples", "axioms"):
+        ctx.coverage.pop(k, None)
+    ctx.prove(module, **kw)
+    acc["theorems"] += ctx.coverage.get("theorems", [])
+    acc["nonvacuity_examples"] += ctx.coverage.get("nonvacuity_examples", 0)
+    acc["axioms"].update(ctx.coverage.get("axioms", {}))
+    ctx.coverage.update(acc)
+
+
 def run(ctx):
-    ctx.extract(["optables", "evalarms", "evalmem"])
+    acc = {"theorems": [], "nonvacuity_examples": 0, "axioms": {}}
+    ctx.extract(["optables", "evalarms", "evalmem", "evalregs"])
     # the scalar theorems do not depend on Generated/EvalMem: built without the driver, so that a
     # change of the memory / control-flow code is attributed to the theorems it breaks
-    ctx.prove(PROPS, extra_modules=["RotoV.Lemmas.ScalarBase", "RotoV.Lemmas.ScalarDiv", "RotoV.Lemmas.Scalar", "RotoV.Lemmas.ScalarEval", "RotoV.Model.RustStd", "RotoV.Model.Lir", "RotoV.Model.Clif"],
+    _prove(ctx, acc, PROPS, extra_modules=["RotoV.Lemmas.ScalarBase", "RotoV.Lemmas.ScalarDiv", "RotoV.Lemmas.Scalar", "RotoV.Lemmas.ScalarEval", "RotoV.Model.RustStd", "RotoV.Model.Lir", "RotoV.Model.Clif"],
               extra_targets=())
     # T2 memory_checked / T3 switch_agrees over Generated/EvalMem (Memory, Allocation, StackFrame,
     # the Switch arms of the evaluator and of the code generator)
-    ctx.prove(PROPS_MEM, extra_modules=["RotoV.Model.EvalMem"])
+    _prove(ctx, acc, PROPS_MEM, extra_modules=["RotoV.Model.EvalMem"])
+    # T4 registers_keyed_by_scope_and_name over Generated/EvalRegs (Var / VarKind, the key of the evaluator's
+    # register file and of the code generator's variable map, eval_operand)
+    _prove(ctx, acc, PROPS_REGS, extra_modules=["RotoV.Model.EvalRegs"], extra_targets=())
     if ctx.build_harness("c20"):
         ctx.harness("c20", ["run", ctx.seed, ctx.tier], timeout=3000)
     ctx.trusted += [
@@ -28,14 +44,18 @@ def run(ctx):
         "IEEE-754 operations are uninterpreted (FloatOps); widening f32->f64 preserves comparisons (FloatLaws)",
         "cranelift_frontend::Switch as written in RotoV/Model/EvalMem.lean (set_entry rejects a repeated key, emit reaches the entry's block or the default; documented behaviour, not verified)",
         "usize arithmetic of the evaluator's memory is modelled in Nat (no overflow of `+`; `-` panics/wraps below zero like Rust); what lies behind a Pointer::Global is uninterpreted; raw pointers handed to clone/drop/eq functions (Memory::get) are outside the model",
-        "modelled, not verified: Call/Return bookkeeping, the register file and host-call adapters of the evaluator are covered by the differential run only",
+        "modelled, not verified: the type checker's name resolution (resolveName: innermost declaring scope) and Cranelift's def_var/use_var (last definition); the per-instruction `vars.insert` sites and host-call adapters of the evaluator are covered by the differential run only",
     ]
     return ctx.finish(
         level="proof",
         rule="mem: operation histories on the real Memory (boundary table per allocation size 0..24: every width 1/2/4/8/16/3/12 at every "
              "offset up to 9 past the end, frame tables, random histories) judged by a shadow oracle and compared with the generated Lean "
              "model, class = (operation, width, allocation size, in-bounds/out-of-bounds/within-padding/misaligned/dangling, outcome); "
-             "flow: matches over enums of 3..9 variants (payloads, `_`, shuffled arms) for every variant x 6 branch-table orders, calls with "
+             "flow: FIRST 44 class representatives independent of the seed — match1: one explicit arm + `_` for every (3..5 variants, arm k, "
+             "payload or not) x every variant (single-entry branch tables); shadow: 20 programs in which a nested block / match arm / "
+             "pattern binding / loop body / callee declares a name that is still live outside (scalars, records), the outer variable read "
+             "again afterwards; then a random stream of block-structured programs (names from a pool of four + parameters: 60 deliberate, 30 "
+             "mostly unique) x 9 argument tuples; matches over enums of 3..9 variants (payloads, `_`, shuffled arms) for every variant x 6 branch-table orders, calls with "
              "permuted arguments, straight-line record programs with one access pushed past its stack slot, class = program text or "
              "(site kind, slot size, width, outcome); single-instruction programs: every (type, operator) x boundary^2 + random operands; "
              "compound programs: random expression trees x 20 argument tuples; a class is distinct by (type, operator, outcome) or by "
